@@ -108,8 +108,8 @@ namespace ratio
                         { return aex->get_type().get_name() == INT_KEYWORD; }))
             return *types.at(INT_KEYWORD);
         else if (std::all_of(xprs.cbegin(), xprs.cend(), [](const arith_expr &aex)
-                             { return aex->get_type().get_name() == REAL_KEYWORD; }))
-            return *types.at(REAL_KEYWORD);
+                             { return aex->get_type().get_name() == REAL_KEYWORD || aex->get_type().get_name() == INT_KEYWORD; }))
+            return *types.at(REAL_KEYWORD); // integers and reals mix into reals (whatever their current bounds are)..
         else if (std::all_of(xprs.cbegin(), xprs.cend(), [this](const arith_expr &aex)
                              { return aex->get_type().get_name() == TP_KEYWORD || aex->l.vars.empty() || lra_th.lb(aex->l) == lra_th.ub(aex->l); }))
             return *types.at(TP_KEYWORD);
